@@ -13,6 +13,7 @@ from ..ref import ws as refws
 from ..ref import http as refhttp
 
 LEVEL = 'fault_enumeration'
+TECHNIQUE = 'runtime monitoring with fault enumeration over the proxy phase: ordered operation-log oracle (nothing written before the tunnel is up)'
 BUDGET_S = {'quick': 25, 'thorough': 150}
 REQUIRED = {'all': ['oracle.proxy_runs', 'oracle.tunnel_ok', 'oracle.tunnel_refused', 'oracle.fault_runs', 'oracle.mapping_runs',
                     'oracle.order_checked']}
